@@ -99,9 +99,9 @@ theorem cB_len (cx : Cx) (Γ : Gam) (b : B) : ∀ (pc o : Nat) (ifT ifF : List I
     simp only [cB, lenB, List.length_append, ihl, ihr]
     cases hg : endsGoto ifT <;> simp [hg]
 
-theorem cD_len (cx : Cx) (Γ : Gam) (b : B) : ∀ (pc o : Nat), (cD cx Γ pc o b).length = lenD cx.checked b := by
+theorem cD_len (cx : Cx) (vd : Bool) (Γ : Gam) (b : B) : ∀ (pc o : Nat), (cD cx vd Γ pc o b).length = lenD cx.checked vd b := by
   induction b with
-  | lit v => intro pc o; cases v <;> rfl
+  | lit v => intro pc o; cases v <;> cases vd <;> rfl
   | cmp op l r =>
     intro pc o
     rcases hcl : cE cx Γ pc o cx.r0 l (!isSafe r) with ⟨c1, vl, p1⟩
@@ -115,7 +115,7 @@ theorem cD_len (cx : Cx) (Γ : Gam) (b : B) : ∀ (pc o : Nat), (cD cx Γ pc o b
     have hr : c2.length = lenE r cx.checked false := by
       have := cE_len cx Γ r (pc + c1.length) (if p1 then o + cx.w else o) cx.r1 false; rw [hcr] at this; exact this
     simp only [cD, hcl, hcr, lenD]
-    cases l <;> cases r <;> simp_all [shape, isSafe, getOp, List.length_append] <;> omega
+    cases vd <;> cases l <;> cases r <;> simp_all [shape, isSafe, getOp, List.length_append] <;> omega
   | not b _ => intro pc o; rfl
   | and l r _ _ => intro pc o; rfl
   | or l r ihl ihr => intro pc o; simp only [cD, lenD, List.length_append, ihl, ihr]
